@@ -18,7 +18,7 @@ fn f214(b: i16) -> F2Dot14 {
 }
 
 /// floor(x + 1/2) for x = num/den, den > 0
-fn round_half_up(num: i64, den: i64) -> i64 {
+pub fn round_half_up(num: i64, den: i64) -> i64 {
     (2 * num + den).div_euclid(2 * den)
 }
 
@@ -216,7 +216,7 @@ fn seg_apply(map: &[(i16, i16)], c: i32) -> (i128, i128) {
     (c, 1)
 }
 
-fn two_axis_font(avar1: bool, avar2: bool) -> Vec<u8> {
+pub fn two_axis_font(avar1: bool, avar2: bool) -> Vec<u8> {
     use write_fonts::tables::avar::{Avar, AxisValueMap, SegmentMaps};
     use write_fonts::tables::fvar::{AxisInstanceArrays, Fvar, VariationAxisRecord};
     let fx = |v: i32| Fixed::from_bits(v << 16);
@@ -469,7 +469,7 @@ pub fn mvar_metrics(run: &Run) {
 // read back through an HVAR table
 // ---------------------------------------------------------------------------
 
-fn index_pairs(ib: u32, ob: u32) -> Vec<(u16, u16)> {
+pub fn index_pairs(ib: u32, ob: u32) -> Vec<(u16, u16)> {
     // (outer, inner) pairs whose ORed widths are exactly ob / ib bits
     let vals = |bits: u32| -> Vec<u16> {
         let top = 1u32 << (bits - 1);
@@ -623,7 +623,7 @@ fn tent_n(region: &[(i16, i16, i16)], loc: &[i16]) -> (i128, i128) {
 }
 
 /// Check `Fvar::user_to_normalized` on an avar 2 font at one user location. Err = (identity, details)
-fn check_avar2_location(font: &FontRef, user: &[i32], what: &str) -> Result<(Vec<i16>, bool), (String, String)> {
+pub fn check_avar2_location(font: &FontRef, user: &[i32], what: &str) -> Result<(Vec<i16>, bool), (String, String)> {
     let fvar = font.fvar().map_err(|e| ("harness: fvar".to_string(), format!("{e}")))?;
     let avar = font.avar().map_err(|e| ("harness: avar".to_string(), format!("{e}")))?;
     let axes = fvar.axes().map_err(|e| ("harness: axes".to_string(), format!("{e}")))?;
